@@ -633,12 +633,13 @@ class AsyncFIXConnection:
             if is_sess_msg or not await self.should_replay(replay_msg):
                 gap_fill_end = msg_seq_num + 1
             else:
-                if gap_fill_begin < gap_fill_end:
-                    # we need to send a gap fill message
+                if gap_fill_begin < msg_seq_num:
+                    # we need to send a gap fill message (for session messages,
+                    #   declined messages and numbers missing in the journal)
                     gap_fill_msg = FIXMessage(FMsg.SEQUENCERESET)
                     gap_fill_msg[FTag.GapFillFlag] = "Y"
                     gap_fill_msg[FTag.MsgSeqNum] = gap_fill_begin
-                    gap_fill_msg[FTag.NewSeqNo] = str(gap_fill_end)
+                    gap_fill_msg[FTag.NewSeqNo] = str(msg_seq_num)
                     # breakpoint()
                     await self.send_msg(gap_fill_msg)
 
